@@ -218,39 +218,41 @@ Qed.
 (* ------------------------------------------------------------------------------------------ *)
 (* what the manager hands to the congestion controller                                         *)
 (* ------------------------------------------------------------------------------------------ *)
-Definition call_time_ok (now : N) (k : call) : bool :=
+Definition call_time_ok (now : N) (rs : list (N * N)) (k : call) : bool :=
   if k_kind k =? 1 then k_a k =? now
   else if k_kind k =? 2 then k_c k =? now
   else if k_kind k =? 3 then (k_d k =? now) && (0 <? k_a k)
+  else if k_kind k =? 5 then (k_c k =? now) && in_some_range rs (k_a k) (k_b k)
   else true.
 
 Lemma Nz_eqb : forall x y, (Nz x =? Z.of_N y)%Z = (x =? y).
 Proof. intros. unfold Nz. destruct (N.eqb_spec x y); lia. Qed.
 
-Lemma calls_ok_z : forall now l, forallb (call_time_ok now) l = true -> calls_ok now (calls_z l) = true.
+Lemma calls_ok_z : forall now rs l, forallb (call_time_ok now rs) l = true -> calls_ok now rs (calls_z l) = true.
 Proof.
   induction l as [|k l IH]; intros H; [reflexivity|]. cbn [forallb] in H. apply andb_prop in H as [Hk Hl].
   unfold calls_z. cbn [flat_map call_z app calls_ok]. fold (calls_z l). rewrite (IH Hl), andb_true_r.
   unfold call_time_ok in Hk. rewrite !zN_Nz.
-  change 1%Z with (Z.of_N 1). change 2%Z with (Z.of_N 2). change 3%Z with (Z.of_N 3). rewrite !Nz_eqb. exact Hk.
+  change 1%Z with (Z.of_N 1). change 2%Z with (Z.of_N 2). change 3%Z with (Z.of_N 3). change 5%Z with (Z.of_N 5).
+  rewrite !Nz_eqb. exact Hk.
 Qed.
 
-Lemma lost_calls_ok : forall ls m pcd cpath now prev,
-  forallb (call_time_ok now) (lost_calls m pcd cpath now prev ls) = true.
+Lemma lost_calls_ok : forall ls m pcd cpath now rs prev,
+  forallb (call_time_ok now rs) (lost_calls m pcd cpath now prev ls) = true.
 Proof.
-  induction ls as [|p t IH]; intros m pcd cpath now prev; [reflexivity|]. cbn [lost_calls].
+  induction ls as [|p t IH]; intros m pcd cpath now rs prev; [reflexivity|]. cbn [lost_calls].
   rewrite forallb_app, IH, andb_true_r. destruct (0 <? p_bytes p) eqn:E; [|reflexivity].
   cbn [forallb]. unfold call_time_ok. cbn [k_kind k_a k_d]. change (3 =? 1) with false. change (3 =? 2) with false.
   change (3 =? 3) with true. cbn match. rewrite N.eqb_refl, E. reflexivity.
 Qed.
 
-Lemma detect_calls_ok : forall m now cpath, forallb (call_time_ok now) (detect_calls m now cpath) = true.
+Lemma detect_calls_ok : forall m now rs cpath, forallb (call_time_ok now rs) (detect_calls m now cpath) = true.
 Proof.
   intros. unfold detect_calls. destruct (largest m) as [lg|]; [|reflexivity].
   destruct (detect_walk m lg now cpath (sentp m) {| cur := None; maxd := 0 |}) as [[ls c] lt]. apply lost_calls_ok.
 Qed.
 
-Lemma ack_calls_ok : forall m now rs lgf ad rx, forallb (call_time_ok now) (ack_calls m now rs lgf ad rx) = true.
+Lemma ack_calls_ok : forall m now rs0 rs lgf ad rx, forallb (call_time_ok now rs0) (ack_calls m now rs lgf ad rx) = true.
 Proof.
   intros. unfold ack_calls. destruct (ack_pre_state m now rs lgf ad rx) as [[m2 acked]|]; [|reflexivity].
   rewrite !forallb_app, detect_calls_ok. cbn [andb]. apply andb_true_intro. split.
@@ -261,21 +263,39 @@ Proof.
     unfold call_time_ok. cbn [k_kind k_c]. change (2 =? 1) with false. change (2 =? 2) with true. cbn match. rewrite N.eqb_refl. reflexivity.
 Qed.
 
-Lemma timeout_calls_ok : forall m now, forallb (call_time_ok now) (timeout_calls m now) = true.
+(* the ranges reported to the Context are the frame's ranges themselves *)
+Lemma range_calls_ok : forall rs now rx, (forall r, In r rs -> fst r <= snd r) ->
+  forallb (call_time_ok now rs) (range_calls rs now rx) = true.
+Proof.
+  intros rs now rx Hw. unfold range_calls. rewrite forallb_forall. intros k Hk. apply in_map_iff in Hk as (r & <- & Hr).
+  unfold call_time_ok. cbn [k_kind k_a k_b k_c]. change (5 =? 1) with false. change (5 =? 2) with false. change (5 =? 3) with false.
+  change (5 =? 5) with true. cbn match. rewrite N.eqb_refl. cbn [andb]. unfold in_some_range.
+  specialize (Hw r Hr). apply andb_true_intro. split; [lia|].
+  apply existsb_exists. exists r. split; [assumption|]. lia.
+Qed.
+
+Lemma mk_ranges_wf : forall lgf len1 gap2 len2 r, In r (mk_ranges lgf len1 gap2 len2) -> fst r <= snd r.
+Proof.
+  intros lgf len1 gap2 len2 r H. unfold mk_ranges in H. destruct H as [<-|H]; [cbn; lia|].
+  destruct ((0 <? len2) && (2 + gap2 <=? lgf - len1)); [|destruct H]. destruct H as [<-|[]]. cbn. lia.
+Qed.
+
+Lemma timeout_calls_ok : forall m now rs, forallb (call_time_ok now rs) (timeout_calls m now) = true.
 Proof.
   intros. unfold timeout_calls. destruct (loss_timer m) as [lt|]; [|reflexivity].
   destruct (has_elapsed lt now); [apply detect_calls_ok|reflexivity].
 Qed.
 
 Lemma mcalls_time_ok : forall m c a b d e f g,
-  forallb (call_time_ok (op_now (m_now m) c a e)) (mcalls m c a b d e f g) = true.
+  forallb (call_time_ok (op_now (m_now m) c a e) (op_ranges (lastpn m) c b d e f)) (mcalls m c a b d e f g) = true.
 Proof.
-  intros. unfold mcalls, op_now.
+  intros. unfold mcalls, op_now, op_ranges.
   destruct (c =? 1)%Z.
   { cbn [forallb]. unfold call_time_ok. cbn [k_kind k_a]. change (1 =? 1) with true. cbn match. rewrite N.eqb_refl. reflexivity. }
   destruct (c =? 2)%Z; [reflexivity|].
   destruct ((c =? 3) || (c =? 4))%Z.
-  { cbn [orb]. destruct (match lastpn m with Some l => zN b <=? l | None => false end); [apply ack_calls_ok|reflexivity]. }
+  { cbn [orb]. destruct (match lastpn m with Some l => zN b <=? l | None => false end); [|reflexivity].
+    rewrite forallb_app, ack_calls_ok, andb_true_r. apply range_calls_ok. apply mk_ranges_wf. }
   destruct (c =? 5)%Z.
   { cbn [orb]. match goal with |- context[backoff_cap ?B] => destruct (backoff_cap B) end; [apply timeout_calls_ok|reflexivity]. }
   destruct (c =? 6)%Z; [destruct (m_space m =? 2); reflexivity|].
@@ -283,7 +303,7 @@ Proof.
 Qed.
 
 Lemma mcalls_ok : forall m c a b d e f g,
-  calls_ok (op_now (m_now m) c a e) (calls_z (mcalls m c a b d e f g)) = true.
+  calls_ok (op_now (m_now m) c a e) (op_ranges (lastpn m) c b d e f) (calls_z (mcalls m c a b d e f g)) = true.
 Proof. intros. apply calls_ok_z, mcalls_time_ok. Qed.
 
 (* the relation between the manager and the judge's ledger *)
@@ -491,10 +511,10 @@ Lemma burst_facts : forall m now,
   /\ ccs (pa (burst_complete m now)) = ccs (pa m) /\ ccs (pb (burst_complete m now)) = ccs (pb m).
 Proof. intros. unfold burst_complete. destruct (pend m); cbn; repeat split; reflexivity. Qed.
 
-Ltac jopen R :=
+Ltac jopen R R' :=
   unfold jstep_m; rewrite parse_mobs; cbv zeta; cbn match;
   rewrite nonneg_mobs by lia; cbn [negb];
-  rewrite R, mcalls_ok; cbn [negb];
+  rewrite R, R', mcalls_ok; cbn [negb];
   rewrite cc_of_tail0, cc_of_tail4, bo_tail.
 
 Lemma jstep_ok : forall m j c a b d e f g t, winv m -> now_pos m -> rel m j -> (c =? 6)%Z = false ->
@@ -513,7 +533,7 @@ Proof.
     set (path := if single m || (f =? 0)%Z then 0 else 1) in *.
     set (m' := on_packet_sent (set_now m now) pn (zN b) (negb (d =? 0)%Z) now path) in *.
     eexists. split; [split; [|reflexivity]|].
-    - jopen R3. rewrite E1. rewrite R1, ?R3, R4, R5, R6, R7.
+    - jopen R3 R4. rewrite E1. rewrite R1, ?R3, ?R4, R5, R6, R7.
       change (m_client m || negb (m_space m =? 2)) with (single m). fold now pn path.
       assert (Ecc0 : ccs (pa m') = cc_add (ccs (pa m)) (if path =? 0 then zN b else 0) 0 0 0).
       { subst m'. unfold on_packet_sent. cbn [pa]. rewrite ccs_pa_cc_path. cbn [set_now pa].
@@ -534,7 +554,7 @@ Proof.
     destruct (burst_facts (set_now m now) now) as (B1 & B2 & B3 & B4 & B5 & B6 & B7).
     cbn [set_now sentp largest lastpn m_now backoff pa pb] in B1, B2, B3, B4, B5, B6, B7.
     eexists. split; [split; [|reflexivity]|].
-    - jopen R3. change (2 =? 1)%Z with false. change ((2 =? 3) || (2 =? 4))%Z with false. change (2 =? 5)%Z with false.
+    - jopen R3 R4. change (2 =? 1)%Z with false. change ((2 =? 3) || (2 =? 4))%Z with false. change (2 =? 5)%Z with false.
       change (2 =? 6)%Z with false. change (2 =? 2)%Z with true. cbn match.
       rewrite B5, B6, B7, R1, R5, R6, R7, !cc_eqb_refl, N.eqb_refl, Z.eqb_refl.
       rewrite (bif_ok_winv m W). reflexivity.
@@ -557,7 +577,7 @@ Proof.
       destruct (on_ack_frame m0 now rs (zN b) (zN g * 1000) rx) as [[m7 lost] hulls] eqn:EA.
       cbn [fst snd] in *.
       eexists. split; [split; [|reflexivity]|].
-      + jopen R3. rewrite E1, E34. rewrite R4, Eok. cbn [negb].
+      + jopen R3 R4. rewrite E1, E34. rewrite ?R4, Eok. cbn [negb].
         rewrite R1, <- P1. fold rs. rewrite Ea.
         rewrite R2, <- P2. rewrite ?R3. fold now.
         rewrite F7. rewrite F6 at 1. rewrite judge_lost_prefix; [|rewrite <- F6; assumption|assumption|assumption].
@@ -572,7 +592,7 @@ Proof.
         destruct F5 as [-> | ->]; [rewrite P5; assumption|lia].
     - (* rejected: largest acknowledged was never sent *)
       eexists. split; [split; [|reflexivity]|].
-      + jopen R3. rewrite E1, E34. rewrite R4, Eok. cbn [negb].
+      + jopen R3 R4. rewrite E1, E34. rewrite ?R4, Eok. cbn [negb].
         rewrite P5, P6, P7, R5, R6, R7, !cc_eqb_refl, N.eqb_refl, Z.eqb_refl. reflexivity.
       + unfold rel. cbn [j_un j_lg j_now j_last j_cc0 j_cc1 j_bo]. rewrite P1, P2, P3, P4, P5, ?R3.
         repeat split; try assumption; try reflexivity; try (symmetry; assumption); try congruence. }
@@ -586,7 +606,7 @@ Proof.
       destruct (on_timeout m1 now maxb) as [m2 lost] eqn:ET. cbn [fst snd] in *.
       pose proof W1 as [Ws1 _ _ _ _ _ _].
       eexists. split; [split; [|reflexivity]|].
-      + jopen R3. rewrite E1, E34, E5. rewrite ?R3. fold now.
+      + jopen R3 R4. rewrite E1, E34, E5. rewrite ?R3. fold now.
         rewrite R1, <- P1, R2, <- P2, T2. rewrite T1 at 1.
         rewrite judge_lost_prefix; [|rewrite <- T1; assumption|assumption|assumption].
         rewrite !N.add_0_l. rewrite R5, R6, <- P6, <- P7, <- T7, <- T8, !cc_eqb_refl.
@@ -600,7 +620,7 @@ Proof.
         split; [reflexivity|]. split; [reflexivity|]. split; [reflexivity|].
         rewrite P5 in T6. destruct T6 as [-> | ->]; lia.
     - eexists. split; [split; [|reflexivity]|].
-      + jopen R3. rewrite E1, E34, E5. cbn [judge_lost]. rewrite !cc_add_0.
+      + jopen R3 R4. rewrite E1, E34, E5. cbn [judge_lost]. rewrite !cc_add_0.
         change (2 =? 0)%Z with false. change (2 =? 2)%Z with true. cbn [orb andb].
         rewrite P5, P6, P7, R1, R5, R6, R7, !cc_eqb_refl, N.eqb_refl.
         rewrite (bif_ok_winv m W).
@@ -623,7 +643,7 @@ Proof.
         cbn [cc_path set_path backoff]. rewrite F1, F2, F3, F4. repeat split; reflexivity. }
       destruct G as (G1 & G2 & G3).
       pose proof (bif_ok_winv _ W') as HB. change (sentp (retry m1)) with (@nil pkt) in HB.
-      jopen R3. rewrite ?E1, ?E34, ?E5, ?H6, ?E7, ?Ec. cbn [andb].
+      jopen R3 R4. rewrite ?E1, ?E34, ?E5, ?H6, ?E7, ?Ec. cbn [andb].
       rewrite HB, G1, G2, G3, R1, R5, R6, R7, !cc_eqb_refl, N.eqb_refl, Z.eqb_refl. reflexivity.
     - assert (G : ccs (pa (retry m1)) = cc_add (ccs (pa m)) 0 0 0 (fold_right (fun p acc => p_bytes p + acc) 0 (sentp m))
                  /\ ccs (pb (retry m1)) = ccs (pb m) /\ backoff (retry m1) = backoff m
@@ -638,19 +658,19 @@ Proof.
     destruct (c =? 7)%Z eqn:E7'.
     - cbn [andb] in E7. rewrite E7 in *.
       eexists. split; [split; [|reflexivity]|].
-      + jopen R3. rewrite ?E1, ?E34, ?E5, ?H6, ?E7', ?E7, ?E2. cbn [andb]. rewrite R1, R5, R6, R7, !cc_eqb_refl, N.eqb_refl, Z.eqb_refl.
+      + jopen R3 R4. rewrite ?E1, ?E34, ?E5, ?H6, ?E7', ?E7, ?E2. cbn [andb]. rewrite R1, R5, R6, R7, !cc_eqb_refl, N.eqb_refl, Z.eqb_refl.
         rewrite (bif_ok_winv m W). reflexivity.
       + unfold rel. cbn [j_un j_lg j_now j_last j_cc0 j_cc1 j_bo].
         repeat split; try assumption; try reflexivity; try (symmetry; assumption); try congruence.
     - destruct (c =? 8)%Z eqn:E8.
       + eexists. split; [split; [|reflexivity]|].
-        * jopen R3. rewrite ?E1, ?E34, ?E5, ?H6, ?E7', ?E2. cbn [andb peer_validated pa pb backoff].
+        * jopen R3 R4. rewrite ?E1, ?E34, ?E5, ?H6, ?E7', ?E2. cbn [andb peer_validated pa pb backoff].
           rewrite R1, R5, R6, R7, !cc_eqb_refl, N.eqb_refl, Z.eqb_refl.
           rewrite (bif_ok_winv m W). reflexivity.
         * unfold rel. cbn [j_un j_lg j_now j_last j_cc0 j_cc1 j_bo peer_validated sentp largest lastpn m_now pa pb backoff].
           repeat split; try assumption; try reflexivity; try (symmetry; assumption); try congruence.
       + eexists. split; [split; [|reflexivity]|].
-        * jopen R3. rewrite ?E1, ?E34, ?E5, ?H6, ?E7', ?E2. cbn [andb]. rewrite R1, R5, R6, R7, !cc_eqb_refl, N.eqb_refl, Z.eqb_refl.
+        * jopen R3 R4. rewrite ?E1, ?E34, ?E5, ?H6, ?E7', ?E2. cbn [andb]. rewrite R1, R5, R6, R7, !cc_eqb_refl, N.eqb_refl, Z.eqb_refl.
           rewrite (bif_ok_winv m W). reflexivity.
         * unfold rel. cbn [j_un j_lg j_now j_last j_cc0 j_cc1 j_bo].
           repeat split; try assumption; try reflexivity; try (symmetry; assumption); try congruence. }
@@ -693,7 +713,7 @@ Proof.
   { unfold discard. rewrite ccs_pa_cc_path, ccs_pb_cc_path. change (0 =? 0) with true. cbn match.
     cbn [cc_path set_path backoff]. rewrite F1, F2, F3, F4. repeat split; reflexivity. }
   destruct G as (G1 & G2 & G3).
-  eexists. jopen R3.
+  eexists. jopen R3 R4.
   change (6 =? 1)%Z with false. change ((6 =? 3) || (6 =? 4))%Z with false. change (6 =? 5)%Z with false.
   change (6 =? 6)%Z with true. cbn [negb andb]. cbn match.
   rewrite D0, D1. rewrite R1, <- F1, filter_path0_nil by assumption.
@@ -707,7 +727,7 @@ Lemma jstep_noop6 : forall m j a b d e f g t, winv m -> rel m j -> (m_space m =?
 Proof.
   intros m j a b d e f g t W (R1 & R2 & R3 & R4 & R5 & R6 & R7 & R8) Es.
   eexists. split.
-  - jopen R3. change (6 =? 1)%Z with false. change ((6 =? 3) || (6 =? 4))%Z with false. change (6 =? 5)%Z with false.
+  - jopen R3 R4. change (6 =? 1)%Z with false. change ((6 =? 3) || (6 =? 4))%Z with false. change (6 =? 5)%Z with false.
     change (6 =? 6)%Z with true. change (6 =? 7)%Z with false. change (6 =? 2)%Z with false. cbn [negb andb]. cbn match.
     rewrite R1, R5, R6, R7, !cc_eqb_refl, N.eqb_refl, Z.eqb_refl. rewrite (bif_ok_winv m W). reflexivity.
   - unfold rel. cbn [j_un j_lg j_now j_last j_cc0 j_cc1 j_bo].
